@@ -634,7 +634,7 @@ def run(ck, F, tier):
                       'constants (if-conversion + comparison over the consistent truth assignments of its range tests); that this is reduction modulo 64 into [-32,31] for '
                       'm,p in that range is a three-line arithmetic argument (DESIGN.md 6/C12), not a machine step. B the chroma rounding folded over every sum; '
                       'C the MVD table against Table 14 code by code; D the candidate selected in each of the 4 x 8 (index, border class) cases; E the median over all '
-                      '13 weak orderings; F zero candidates from intra / not-coded neighbours.')
+                      '13 weak orderings; F zero candidates from intra / not-coded neighbours; M mv_decode pairing and vector writes; W what the call sites in decode_next_picture hand predict_candidate / mv_decode / gather.')
     ck.assumptions += ['Table 14/H.263 transcribed as the 33 (code,length) pairs of the reference decoders plus sign bit',
                        'operands in the half-sample range: saturating addition equals addition']
     a_wrap(ck, F)
